@@ -123,7 +123,10 @@ def check_C07(report, tier, seed):
     import suites_engine as S
     engine_check("C07", report, tier, seed, profile=lambda i: "connects" if i % 3 == 1 else "default")
     S.exhaustive(report, "C07", 3 if tier == "quick" else 4)
-def check_C09(report, tier, seed): engine_check("C09", report, tier, seed)
+def check_C09(report, tier, seed):
+    import suites_engine as S
+    engine_check("C09", report, tier, seed)
+    S.receive_maximum_resume_family(report, "C09")
 def check_C10(report, tier, seed): engine_check("C10", report, tier, seed)
 def check_C11(report, tier, seed):
     import suites_engine as S
